@@ -25,6 +25,17 @@ Oracles, evaluated after every step:
  * frame: rows (of every location in both partitions) not addressed by the step are unchanged;
  * conditional operations apply iff their condition held, and raise LWTException otherwise;
  * every statement is valid CQL for the table (the interpreter rejects what Cassandra rejects).
+
+Layer K (key values): 15 further models `pk T, ck T [, ck2 T2], st text static, v int, s set<int>`, one per key column type
+with a falsy python value (Integer, BigInt, SmallInt, TinyInt, VarInt 0; Text, Ascii ''; Boolean False; Float, Double 0.0;
+Decimal 0; Blob b'') and three with two clustering columns of mixed types.  The instance X is placed at every falsy/truthy
+combination of its key column values; histories (breadth-first, deduplicated, depth 3) over create (6 forms incl. save()
+of a new instance, in a batch, with falsy non-key values 0 / ''), mutate + save / update, delete, key assignment + save
+(to the flipped falsy<->truthy clustering value, a third value, the flipped partition value), a neighbour row N in the same
+partition whose last clustering value is the flipped one (create, batched create, query-set delete), the documented
+static-only create (no clustering value at all), query-set update / delete, reload, refetch.  Oracles: read-back of X, the
+row exists after every create / key assignment + save, frame over every location of the value pools and every partition's
+static column, valid CQL.
 """
 import itertools
 
@@ -48,6 +59,13 @@ META = {
             'a query for its row returns). '
             'States are (interpreter table content, per-slot instance values, previous values, explicit flags, number of inner containers '
             'shared between a value and its snapshot, sync flag) and are expanded once. '
+            'Key-value layer: for each of 15 models with a partition key, one or two clustering keys, a static, a scalar and a set column - one per key column type that has a '
+            'falsy python value (0 for the five integer types, \'\' for Text/Ascii, False, 0.0 for Float/Double, Decimal(0), b\'\' for Blob) and three with two clustering '
+            'columns of mixed types - and every falsy/truthy combination of the key column values of the instance (62 configurations), breadth-first search with '
+            'state deduplication to depth 3 over 30 operations: six forms of create (full, keys only, without static, falsy non-key values, save() of a '
+            'new instance, batched), mutations + save()/update(), delete, key assignment + save() to a falsy / truthy / other-partition key, a neighbour row in the same '
+            'partition at the flipped clustering value (created, batch-created, deleted), the static-only create without clustering values, query-set update/delete, '
+            'reload and refetch; judged by read-back, row existence after every INSERT-path save, the frame over all rows and statics, and CQL validity. '
             'Every explored trace is an execution of the real cqlengine code; the CQL it emits is parsed and applied by vt/spec/minicql.py.',
     'note': 'Trusted base: the cell semantics S1-S10 of vt/spec/minicql.py (listed in the evidence assumptions) and the fake session. '
             'Operations whose documented meaning is unclear (writes through a stale instance, create over an existing row, counter '
@@ -861,6 +879,462 @@ def alphabet(kind):
     return ops
 
 
+# ================================================================================ layer K: key values
+# Small models `pk <T>, ck <T> [, ck2 <T2>], st text static, v int, s set<int>` for every key column type T whose python values
+# include a falsy one (0, '', False, 0.0, Decimal(0), b'').  The instance X lives at a key built from falsy / truthy values of each
+# key column (every combination); a neighbour row N (same partition, last clustering value flipped falsy <-> truthy) and a static-only
+# partition write P are part of the alphabet, so that "falsy key taken for a missing key" shows as a lost row, a lost static, a
+# statement Cassandra rejects, or a changed neighbour.
+import decimal as _decimal
+
+K_TYPES = {
+    # column class: (falsy value, truthy values, the falsy value is legal as the only partition key component)
+    'Integer': (0, (1, 2), True),
+    'BigInt': (0, (1 << 40, 2), True),
+    'SmallInt': (0, (1, 2), True),
+    'TinyInt': (0, (1, 2), True),
+    'VarInt': (0, (1 << 70, 2), True),
+    'Text': ('', ('a', 'b'), False),
+    'Ascii': ('', ('a', 'b'), False),
+    'Boolean': (False, (True,), True),
+    'Float': (0.0, (1.5, 2.5), True),
+    'Double': (0.0, (-2.5, 2.5), True),
+    'Decimal': (_decimal.Decimal('0'), (_decimal.Decimal('1.5'), _decimal.Decimal('2')), True),
+    'Blob': (b'', (b'x', b'y'), False),
+}
+# (partition key type, clustering key types)
+K_MODELS = [(t, (t,)) for t in ('Integer', 'BigInt', 'SmallInt', 'TinyInt', 'VarInt', 'Text', 'Ascii', 'Boolean', 'Float', 'Double', 'Decimal', 'Blob')] + \
+           [('Integer', ('Integer', 'Text')), ('Text', ('Boolean', 'Double')), ('Boolean', ('Blob', 'Integer'))]
+K_COLS = ('st', 'v', 's')
+K_DEPTH_QUICK, K_DEPTH_THOROUGH = 3, 3      # the thorough tier spends its budget on the main search
+_km = {}
+
+
+def k_model(mi):
+    """-> (model class, table key, key column names)"""
+    if mi in _km:
+        return _km[mi]
+    models()
+    from cassandra.cqlengine import columns
+    from cassandra.cqlengine.models import Model
+    pkt, ckts = K_MODELS[mi]
+    attrs = {'__table_name__': 'k%d' % mi, 'pk': getattr(columns, pkt)(partition_key=True)}
+    names = ['pk']
+    for n, t in enumerate(ckts):
+        name = 'ck' if n == 0 else 'ck%d' % (n + 1)
+        attrs[name] = getattr(columns, t)(primary_key=True)
+        names.append(name)
+    attrs['st'] = columns.Text(static=True)
+    attrs['v'] = columns.Integer()
+    attrs['s'] = columns.Set(columns.Integer)
+    cls = type(Model)('K%d' % mi, (Model,), attrs)
+    _km[mi] = (cls, ('ks', 'k%d' % mi), tuple(names))
+    return _km[mi]
+
+
+def k_configs():
+    """[(model index, key of X as a tuple of 'f' (falsy) / 't' (first truthy value) per key column)]"""
+    out = []
+    for mi, (pkt, ckts) in enumerate(K_MODELS):
+        pk_choices = ('f', 't') if K_TYPES[pkt][2] else ('t',)
+        for combo in itertools.product(pk_choices, *[('f', 't')] * len(ckts)):
+            out.append((mi, combo))
+    return out
+
+
+def _kval(tname, sym):
+    f, ts, _ = K_TYPES[tname]
+    if sym == 'f':
+        return f
+    if sym == 't':
+        return ts[0]
+    return ts[1] if len(ts) > 1 else None        # 'u': a second truthy value, where the type has one
+
+
+class KWorld(object):
+    def __init__(self, mi, combo):
+        w = models()
+        mq = w['minicql']
+        self.mi, self.combo = mi, combo
+        self.R, self.tk, self.keynames = k_model(mi)
+        pkt, ckts = K_MODELS[mi]
+        self.types = (pkt,) + tuple(ckts)
+        self.db = mq.Database([mq.Table(self.tk[0], self.tk[1], ['pk'], list(self.keynames[1:]),
+                                        {'st': 'scalar', 'v': 'scalar', 's': 'set'}, static=['st'])])
+        self.backend = w['cqle'].MiniBackend(self.db)
+        self.session = w['session']
+        self.session.handler = self.backend
+        self.session.calls = []
+        self.inst = None
+        self.sync = False
+        self.home = tuple(_kval(t, sym) for t, sym in zip(self.types, combo))
+        flip = {'f': 't', 't': 'f'}
+        self.nkey = self.home[:-1] + (_kval(self.types[-1], flip[combo[-1]]),)
+        third = _kval(self.types[-1], 'u')
+        self.third = None if third is None else self.home[:-1] + (third,)
+        self.pkflip = (_kval(pkt, flip[combo[0]]),) + self.home[1:] if K_TYPES[pkt][2] else None
+        # every location that can be addressed: all values of every key column
+        pools = []
+        for t in self.types:
+            f, ts, _ = K_TYPES[t]
+            pools.append((f,) + tuple(ts))
+        self.locs = list(itertools.product(*pools))
+        self.pks = list(pools[0])
+
+    # ---- views
+    def dbkey(self, loc):
+        mq = models()['minicql']
+        vals = [mq.norm(self.R._columns[n].to_database(v)) for n, v in zip(self.keynames, loc)]
+        return (vals[0],), tuple(vals[1:])
+
+    def key(self):
+        if self.inst is None:
+            return self.home
+        k = tuple(getattr(self.inst, n) for n in self.keynames)
+        for loc in self.locs:
+            if all(type(a) is type(b) and a == b for a, b in zip(loc, k)):
+                return loc
+        raise HarnessError('instance has key %r, which is not an enumerated location' % (k,))
+
+    def loc_row(self, loc):
+        """(exists, v, s) of the row at loc"""
+        pk, ck = self.dbkey(loc)
+        r = self.db.read_row(self.tk, pk, ck)
+        return (r is not None, r['v'] if r else None, nv(r['s']) if r else None)
+
+    def static(self, pkval):
+        st = self.db.read_static(self.tk, self.dbkey((pkval,) + self.home[1:])[0])
+        return st['st'] if st else None
+
+    def views(self):
+        return {'rows': dict((loc, self.loc_row(loc)) for loc in self.locs), 'st': dict((p, self.static(p)) for p in self.pks),
+                'key': self.key()}
+
+    def canon(self):
+        i = self.inst
+        if i is None:
+            iv = None
+        else:
+            iv = (self.sync, bool(i._is_persisted), tuple((n, nv(m.value), m.value is None, nv(m.previous_value), bool(m.explicit))
+                                                          for n, m in sorted(i._values.items())))
+        return (self.db.snapshot(), iv)
+
+    # ---- oracles
+    def check_instance(self, opname, sent):
+        if self.inst is None or not self.sync:
+            return
+        loc = self.key()
+        exists, v, sset = self.loc_row(loc)
+        rv = {'st': self.static(loc[0]), 'v': v, 's': sset}
+        iv = dict((c, nv(getattr(self.inst, c))) for c in K_COLS)
+        if iv != rv:
+            bad = sorted(c for c in iv if iv[c] != rv[c])
+            raise Violation('C35/readback/%s/%s' % (','.join(bad), '+'.join(sent) or 'nothing-sent'),
+                            'after %s the %s instance with key %r has %r but the row read back has %r (row exists: %r; the step sent %s)' % (
+                                opname, self.describe(), loc, dict((c, iv[c]) for c in bad), dict((c, rv[c]) for c in bad), exists, list(sent) or 'no statement'))
+
+    def describe(self):
+        pkt, ckts = K_MODELS[self.mi]
+        return 'model(pk %s, ck %s)' % (pkt, ' '.join(ckts))
+
+    def must_exist(self, loc, opname):
+        if not self.loc_row(loc)[0]:
+            raise Violation('C35/keys/row-missing/%s' % opname.split('(')[0],
+                            'after %s on %s the row with key %r does not exist; statements: %r' % (
+                                opname, self.describe(), loc, [q for q, _, _ in self.backend.log[-2:]]))
+
+    def frame(self, before, addressed, static_parts, opname):
+        """Rows other than the addressed ones are unchanged; statics change only in static_parts."""
+        for loc in self.locs:
+            if loc in addressed:
+                continue
+            now = self.loc_row(loc)
+            if now != before['rows'][loc]:
+                raise Violation('C35/frame/%s' % opname, 'step %s on %s changed the row with key %r, which it does not address: %r -> %r' % (
+                    opname, self.describe(), loc, before['rows'][loc], now))
+        for p in self.pks:
+            if p in static_parts:
+                continue
+            now = self.static(p)
+            if now != before['st'][p]:
+                raise Violation('C35/frame/static/%s' % opname, 'step %s on %s changed the static column of partition %r, which it does not write: %r -> %r' % (
+                    opname, self.describe(), p, before['st'][p], now))
+
+
+def _kkw(w, loc):
+    return dict(zip(w.keynames, loc))
+
+
+def k_ops():
+    """[(name, fn(world) -> False when not enabled)]"""
+    models()
+    from cassandra.cqlengine.query import BatchQuery
+    ops = []
+
+    def create(label, kwargs, via='create'):
+        def fn(w):
+            if w.inst is not None or w.loc_row(w.home)[0]:
+                return False
+            before = w.views()
+            if 'st' not in kwargs and before['st'][w.home[0]] is not None:
+                return False
+            kw = dict(_kkw(w, w.home), **kwargs)
+            if via == 'create':
+                w.inst = w.R.create(**kw)
+            elif via == 'save':
+                w.inst = w.R(**kw)
+                w.inst.save()
+            else:
+                with BatchQuery() as b:
+                    w.inst = w.R.batch(b).create(**kw)
+                w.inst.batch(None)
+            w.sync = True
+            w.must_exist(w.home, 'create-' + label)
+            w.frame(before, (w.home,), (w.home[0],) if 'st' in kwargs else (), 'create-' + label)
+        ops.append(('X.create-%s' % label, fn))
+    create('full', {'st': 'a', 'v': 1, 's': {1, 2}})
+    create('min', {})
+    create('nostatic', {'v': 1, 's': {1}})
+    create('falsy-values', {'st': '', 'v': 0})
+    create('full-by-save', {'st': 'a', 'v': 1, 's': {1, 2}}, via='save')
+    create('full-in-batch', {'st': 'a', 'v': 1, 's': {1}}, via='batch')
+
+    def mutate(label, guard, apply, persist, static):
+        def fn(w):
+            i = w.inst
+            if i is None or not w.sync or not guard(i):
+                return False
+            before = w.views()
+            apply(i)
+            getattr(i, persist)()
+            w.frame(before, (w.key(),), (w.key()[0],) if static else (), '%s+%s' % (label, persist))
+        ops.append(('X.%s+%s' % (label, persist), fn))
+    mutate('v=7', lambda i: i.v != 7, lambda i: setattr(i, 'v', 7), 'save', False)
+    mutate('v=0', lambda i: i.v != 0 or i.v is None, lambda i: setattr(i, 'v', 0), 'save', False)
+    mutate('v=None', lambda i: i.v is not None, lambda i: setattr(i, 'v', None), 'save', False)
+    mutate('st=b', lambda i: i.st != 'b', lambda i: setattr(i, 'st', 'b'), 'save', True)
+    mutate('st=None', lambda i: i.st is not None, lambda i: setattr(i, 'st', None), 'save', True)
+    mutate('s.add3', lambda i: i.s is not None and 3 not in i.s, lambda i: i.s.add(3), 'save', False)
+    mutate('s=None,v=8', lambda i: bool(i.s), lambda i: (setattr(i, 's', None), setattr(i, 'v', 8)), 'save', False)
+    mutate('v=7', lambda i: i.v != 7, lambda i: setattr(i, 'v', 7), 'update', False)
+    mutate('st=b,v=None', lambda i: i.st != 'b' and i.v is not None, lambda i: (setattr(i, 'st', 'b'), setattr(i, 'v', None)), 'update', True)
+
+    def update_kw(label, kwargs):
+        def fn(w):
+            if w.inst is None or not w.sync:
+                return False
+            before = w.views()
+            w.inst.update(**kwargs)
+            w.frame(before, (w.key(),), (), 'update(%s)' % label)
+        ops.append(('X.update(%s)' % label, fn))
+    update_kw('v=None', {'v': None})
+    update_kw('s={5}', {'s': {5}})
+
+    def delete(w):
+        if w.inst is None or not w.sync:
+            return False
+        before = w.views()
+        loc = w.key()
+        w.inst.delete()
+        w.inst, w.sync = None, False
+        if w.loc_row(loc)[0]:
+            raise Violation('C35/delete/row-remains', 'after delete() the row with key %r of %s still exists' % (loc, w.describe()))
+        w.frame(before, (loc,), (), 'delete')
+    ops.append(('X.delete', delete))
+
+    def rekey(label, target):
+        def fn(w):
+            i = w.inst
+            if i is None or not w.sync or not i._is_persisted:
+                return False
+            cur = w.key()
+            if cur != w.home:
+                return False
+            new = target(w)
+            if new is None or w.loc_row(new)[0]:
+                return False
+            before = w.views()
+            if new[0] != cur[0] and before['st'][new[0]] is not None and i.st is None:
+                return False
+            for n, val in zip(w.keynames, new):
+                if getattr(i, n) != val or type(getattr(i, n)) is not type(val):
+                    setattr(i, n, val)
+            i.save()
+            w.must_exist(new, 'rekey-' + label)
+            w.frame(before, (new,), (new[0],), 'rekey-%s+save' % label)
+        ops.append(('X.rekey-%s+save' % label, fn))
+    rekey('ck-flipped', lambda w: w.nkey)
+    rekey('ck-third', lambda w: w.third)
+    rekey('pk-flipped', lambda w: w.pkflip)
+
+    def n_create(via):
+        def fn(w):
+            if w.loc_row(w.nkey)[0] or (w.inst is not None and w.key() == w.nkey):
+                return False
+            before = w.views()
+            kw = dict(_kkw(w, w.nkey), v=100, s={100})
+            if via == 'create':
+                n = w.R.create(**kw)
+            else:
+                with BatchQuery() as b:
+                    n = w.R.batch(b).create(**kw)
+            w.must_exist(w.nkey, 'neighbour-create')
+            got = w.loc_row(w.nkey)
+            if got != (True, 100, frozenset([100])):
+                raise Violation('C35/readback/v,s/neighbour-create', 'after create(%r) on %s the row reads back %r' % (kw, w.describe(), got))
+            w.frame(before, (w.nkey,), (), 'neighbour-create')
+        ops.append(('N.create' if via == 'create' else 'N.create-in-batch', fn))
+    n_create('create')
+    n_create('batch')
+
+    def n_delete(w):
+        if not w.loc_row(w.nkey)[0] or (w.inst is not None and w.key() == w.nkey):
+            return False
+        before = w.views()
+        w.R.objects.filter(**_kkw(w, w.nkey)).delete()
+        if w.loc_row(w.nkey)[0]:
+            raise Violation('C35/qs-delete/row-remains', 'objects(%r).delete() on %s left the row' % (_kkw(w, w.nkey), w.describe()))
+        w.frame(before, (w.nkey,), (), 'neighbour-qs-delete')
+    ops.append(('qsN.delete', n_delete))
+
+    def p_static(w):
+        # all clustering values missing: the documented static-only save
+        pkv = w.home[0]
+        before = w.views()
+        w.R.create(pk=pkv, st='p')
+        if w.static(pkv) != 'p':
+            raise Violation('C35/readback/st/static-only-create', 'after create(pk=%r, st=\'p\') on %s the static column of the partition reads %r' % (
+                pkv, w.describe(), w.static(pkv)))
+        if w.inst is not None and w.key()[0] == pkv:
+            w.sync = False
+        w.frame(before, (), (pkv,), 'static-only-create')
+    ops.append(('P.create-static-only', p_static))
+
+    def qs_update(label, kwargs, effect):
+        def fn(w):
+            loc = w.key()
+            before = w.views()
+            w.R.objects.filter(**_kkw(w, loc)).update(**kwargs)
+            if w.inst is not None:
+                w.sync = False
+            ex, v, sset = before['rows'][loc]
+            want = effect(v, sset)
+            got = w.loc_row(loc)[1:]
+            if got != want:
+                raise Violation('C35/qs-update/%s/keys' % label, 'objects(%r).update(%s) on %s: row (v, s) was %r, is %r, documented effect gives %r' % (
+                    _kkw(w, loc), label, w.describe(), (v, sset), got, want))
+            w.frame(before, (loc,), (), 'qs-update(%s)' % label)
+        ops.append(('qsX.update(%s)' % label, fn))
+    qs_update('v=5', {'v': 5}, lambda v, s: (5, s))
+    qs_update('v=0,s__add={3}', {'v': 0, 's__add': {3}}, lambda v, s: (0, frozenset(s or ()) | frozenset([3])))
+
+    def qs_delete(w):
+        loc = w.key()
+        if not w.loc_row(loc)[0]:
+            return False
+        before = w.views()
+        w.R.objects.filter(**_kkw(w, loc)).delete()
+        if w.inst is not None:
+            w.sync = False
+        if w.loc_row(loc)[0]:
+            raise Violation('C35/qs-delete/row-remains', 'objects(%r).delete() on %s left the row' % (_kkw(w, loc), w.describe()))
+        w.frame(before, (loc,), (), 'qs-delete')
+    ops.append(('qsX.delete', qs_delete))
+
+    def reload(w):
+        if w.inst is None or w.sync:
+            return False
+        got = w.R.objects.filter(**_kkw(w, w.key())).first()
+        w.inst = got
+        w.sync = got is not None
+    ops.append(('X.reload', reload))
+
+    def refetch(w):
+        if w.inst is None or not w.sync or not w.loc_row(w.key())[0]:
+            return False
+        loc = w.key()
+        got = w.R.objects.filter(**_kkw(w, loc)).first()
+        if got is None:
+            raise Violation('C35/refetch/row-missing', 'objects(%r).first() on %s found no row although the row exists' % (_kkw(w, loc), w.describe()))
+        w.inst = got
+    ops.append(('X.refetch', refetch))
+    return ops
+
+
+def k_execute(cfg, ops, seq):
+    mq = models()['minicql']
+    from cassandra.cqlengine.query import LWTException
+    mi, combo = cfg
+    w = KWorld(mi, tuple(combo))
+    for k, oi in enumerate(seq):
+        name, fn = ops[oi]
+        nlog = len(w.backend.log)
+        try:
+            if fn(w) is False:
+                return w, ('disabled', k)
+            w.check_instance(strip_slot(name), tuple(q.split()[0] for q, _, _ in w.backend.log[nlog:]))
+        except Violation as v:
+            return w, ('violation', k, v.fp, v.what)
+        except mq.InvalidRequest as e:
+            last = w.session.calls[-1].query.split()[0] if w.session.calls else '?'
+            return w, ('violation', k, 'C35/invalid-cql/%s/%s' % (last, '-'.join(str(e).lower().split()[:4])),
+                       'cqlengine sent CQL that Cassandra rejects during %s on %s with key %r: %s; statements: %r' % (
+                           name, w.describe(), w.home, e, [c.query for c in w.session.calls[-3:]]))
+        except (mq.Unsupported, mq.ParseError) as e:
+            raise HarnessError('interpreter cannot execute what cqlengine sent during %s (%r): %r' % (name, e, [c.query for c in w.session.calls[-3:]]))
+        except HarnessError:
+            raise
+        except LWTException as e:
+            return w, ('violation', k, 'C35/lwt/unexpected/%s' % strip_slot(name), 'unconditional step %s raised LWTException %r' % (name, e))
+        except Exception as e:
+            return w, ('violation', k, 'C35/raises/%s/%s' % (strip_slot(name), type(e).__name__),
+                       'step %s on %s with key %r raised %r' % (name, w.describe(), w.home, e))
+    return w, 'ok'
+
+
+def run_keys(args):
+    """Breadth-first search with state deduplication over the key-value alphabet for one (model, key of X)."""
+    cfg, depth, order = args
+    ops = k_ops()
+    part = Part()
+    seen = set([hash(KWorld(cfg[0], tuple(cfg[1])).canon())])
+    frontier = [()]
+    for level in range(depth):
+        nxt = []
+        for seq in frontier:
+            for oi in order:
+                s2 = seq + (oi,)
+                w, status = k_execute(cfg, ops, s2)
+                if status != 'ok' and status[0] == 'disabled':
+                    if status[1] != len(seq):
+                        raise HarnessError('prefix %r is not replayable: step %d disabled' % (seq, status[1]))
+                    continue
+                part.count('transitions')
+                part.count('executions')
+                part.count('key_layer_executions')
+                part.count('evaluations', len(s2))
+                names = [ops[i][0] for i in s2]
+                if status != 'ok':
+                    _, k, fp, what = status
+                    if k != len(seq):
+                        raise HarnessError('nondeterministic replay: prefix %r violated at step %d' % (names, k))
+                    part.violation(fp, '%s   [trace: %s]' % (what, ' ; '.join(names)), {'keys': [cfg[0], list(cfg[1])], 'names': names})
+                    part.outcome(('violation', fp))
+                    continue
+                part.outcome(('keys', strip_slot(names[-1]), tuple(q.split()[0] for q, _, _ in w.backend.log[-2:])))
+                if 'f' in cfg[1] and len(w.backend.log) >= 1:
+                    part.count('distinct_nontrivial')
+                h = hash(w.canon())
+                if h in seen:
+                    continue
+                seen.add(h)
+                nxt.append(s2)
+                part.sample({'model': w.describe(), 'key': repr(w.home), 'trace': names, 'statements': [q for q, _, _ in w.backend.log][-3:]}, limit=1)
+        frontier = nxt
+    part.count('key_layer_states', len(seen))
+    return part
+
+
 # ================================================================================ execution
 def execute(ops, seq):
     """Run the operation indices `seq` in a fresh world.
@@ -992,7 +1466,13 @@ def run(ctx):
     sizes = []
     for kind, depth in plan:
         sizes.append((kind, search(ctx, kind, depth, all_hashes, deadline), depth))
-    ctx.count('states', len(all_hashes))
+    kops = k_ops()
+    korder = ctx.rotate(list(range(len(kops))))
+    kdepth = K_DEPTH_QUICK if ctx.quick else K_DEPTH_THOROUGH
+    kcfgs = ctx.rotate(k_configs())
+    for p in ctx.pmap(run_keys, [(cfg, kdepth, korder) for cfg in kcfgs]):
+        ctx.merge(p)
+    ctx.count('states', len(all_hashes) + ctx.counters.get('key_layer_states', 0))
     capped = sorted(k for k in ctx.counters if k.startswith('capped_unexpanded'))
     if capped:
         ctx.cap('wall-clock budget (540 s) reached: %s; every shallower level of each search is complete' % '; '.join(
@@ -1001,7 +1481,11 @@ def run(ctx):
                        'real cqlengine code; a state (canonical table content + per instance values / previous values / explicit flags / sync flag) is '
                        'expanded once (globally up to depth 2, per worker subtree below; the state count is the union); executions = sequences; '
                        'evaluations = steps executed and judged; non-trivial = a sequence of at least two steps in which at least two statements '
-                       'reached the interpreter' % (sizes, ', '.join(n for n, _ in alphabet('full' if ctx.thorough else 'quick'))))
+                       'reached the interpreter.  Key-value layer: %d (model, key of X) configurations = %d models %r x every falsy/truthy combination of the '
+                       'key column values %r (an empty text/blob is not generated as the only partition key component), each searched breadth-first '
+                       'with state deduplication to depth %d over the operations %s; non-trivial there = an execution with a falsy key value that sent a statement'
+                       % (sizes, ', '.join(n for n, _ in alphabet('full' if ctx.thorough else 'quick')),
+                          len(kcfgs), len(K_MODELS), K_MODELS, dict((t, (v[0], v[1])) for t, v in K_TYPES.items()), kdepth, ', '.join(n for n, _ in kops)))
     ctx.cov['exhaustive'] = not ctx.caps_hit
     for a in ASSUMPTIONS:
         ctx.assume(a)
@@ -1035,12 +1519,27 @@ ASSUMPTIONS = [
     'create()/save() of a new instance over an existing row, or in a partition whose static column is set without passing it, is an upsert whose '
     'unspecified columns keep their stored values: not generated',
     'query-set update of a counter column and counter create/save other than through update() semantics are not generated',
+    'key-value layer: create()/save() of an instance all of whose clustering values are None and that carries a static value is the documented static-only '
+    'save (writes the partition\'s static column, no row); any other create()/save() of a new instance makes its row exist (INSERT row marker) even when every '
+    'non-key column is null; a clustering or partition key value that is falsy but not None (0, \'\', False, 0.0, Decimal(0), b\'\') is a key value like any other; '
+    'an empty text/ascii/blob value is not generated as the only partition key component (Cassandra rejects an empty partition key); -0.0, NaN and empty frozen '
+    'collections as key values are not generated',
     'documented query-set update semantics: plain keyword overwrites the column (containers included), None deletes it, __add/__remove/__append/'
     '__prepend/__update/__remove apply their operand; an empty operand changes nothing',
 ]
 
 
 def replay(ctx, data):
+    if 'keys' in data:
+        ops = k_ops()
+        idx = dict((n, i) for i, (n, _) in enumerate(ops))
+        cfg = (data['keys'][0], tuple(data['keys'][1]))
+        w, status = k_execute(cfg, ops, [idx[n] for n in data['names']])
+        print('model:', w.describe(), 'key of X:', w.home, 'trace:', ' ; '.join(data['names']))
+        for q, p, r in w.backend.log:
+            print('   ', q, p, '->', r)
+        print('status:', status)
+        return status != 'ok' and status[0] == 'violation'
     quick_ops = alphabet('quick')
     full_ops = alphabet('full')
     names = data['names']
